@@ -65,3 +65,28 @@ package patch
 //@     | && arr(block) != textref && bytecode.opexpand_wf()
 //@   ensures consumed_input: err == nil ==> 0 <= fixedDataSize
 //@   panics_only_if decoder_error_or_cannot_encode: true
+
+// ---- the branch-back check ----------------------------------------------------------------------------------------------
+// The instruction stream of a byte block: on_stream(b, p) holds for the offsets reached from 0 by
+// advancing by the decoded length.  Three facts about such a deterministic linear stream are ASSUMED
+// (provable on paper by induction over the decoder-as-a-function): it starts at 0, it is closed under
+// "advance by Len", and no stream offset lies strictly inside another stream instruction.
+//@ uninterp func on_stream(mem bytes, base uintptr, n int, p int) bool
+//@ pure func ins_on(b []byte, p int) x86asm.Inst = x86asm.x86_decode(contents(b), off(b) + uintptr(p), bytecode.window_end(p, len(b)) - p, 64)
+//@ pure func streams(b []byte, p int) bool = on_stream(contents(b), off(b), len(b), p)
+// an instruction at stream offset q branches (or points) into the overwritten prefix [0, to) - INCLUDING offset 0, the patched entry
+//@ pure func points_into_prefix(b []byte, q int, to int) bool = ins_on(b, q).PCRelOff > 0
+//@   | && 0 <= q + ins_on(b, q).Len + bytecode.sdisp(b, q + ins_on(b, q).PCRelOff, ins_on(b, q).PCRel) && q + ins_on(b, q).Len + bytecode.sdisp(b, q + ins_on(b, q).PCRelOff, ins_on(b, q).PCRel) < to
+
+//@ func checkJumpBetween
+//@   props C03 C16
+//@   requires block: arr(originData) != textref && len(originData) < 0x100000 && 0 <= to && to < 0x100000 && 0 <= funcSize && funcSize < 0x100000
+//@   assume stream_starts_at_zero: streams(originData, 0)
+//@   assume stream_advances_by_length: forall p int :: streams(originData, p) && 0 <= p && p < len(originData) ==> streams(originData, p + ins_on(originData, p).Len)
+//@   assume stream_is_linear: forall p int, q int :: streams(originData, p) && streams(originData, q) && 0 <= p && p < q && p < len(originData) ==> p + ins_on(originData, p).Len <= q
+//@   assume displacements_are_small: forall p int :: 0 <= p && p < len(originData) ==> bytecode.fits32(bytecode.sdisp(originData, p + ins_on(originData, p).PCRelOff, ins_on(originData, p).PCRel))
+//@   assigns nothing
+//@   invariant loop 1 scanned_prefix_is_clean: 0 <= pos && pos <= len(originData) && streams(originData, pos) && arr(originData) != textref
+//@     | && forall q int :: streams(originData, q) && 0 <= q && q < pos ==> !points_into_prefix(originData, q, to)
+//@   ensures no_branch_back_into_overwritten_prefix: result == nil ==> forall q int :: streams(originData, q) && 0 <= q && q <= funcSize && q < len(originData) ==> !points_into_prefix(originData, q, to)
+//@   panics_only_if decoder_error: true
